@@ -59,3 +59,18 @@ def variable_after_measure(doc: dict, params: dict) -> bool:
 
 
 MATCHERS["variable_after_measure"] = variable_after_measure
+
+
+def slow_eom_any(doc: dict, params: dict) -> bool:
+    """Some channel of the minimised history has an EOM slower than the channel
+    itself and is put into EOM mode."""
+    for rec in doc["trace"]:
+        op = rec["op"]
+        if op["op"] == "enable_eom_mode":
+            spec = _chan_spec(doc, op["ch"])
+            if spec and spec.get("eom") and spec.get("mod_bandwidth") and spec["eom"]["mod_bandwidth"] < spec["mod_bandwidth"]:
+                return True
+    return False
+
+
+MATCHERS["slow_eom_any"] = slow_eom_any
